@@ -77,6 +77,19 @@ class AsyncQueue[Element](AsyncIterator[Element]):
             # wait for the result
             return await self._waiting
 
+        except CancelledError:
+            # keep the element handed over to a consumer cancelled before it could receive it
+            waiting: Future[Element] | None = self._waiting
+            if (
+                waiting is not None
+                and waiting.done()
+                and not waiting.cancelled()
+                and waiting.exception() is None
+            ):
+                self._queue.appendleft(waiting.result())
+
+            raise
+
         finally:
             # cleanup
             self._waiting = None
